@@ -509,9 +509,11 @@ class ImmutableVersion(dns.zone.Version):
                 len(origin),
             )
             right_key = None
-        closest_encloser = dns.name.Name(
-            name[-max(left_comparison[2], right_comparison[2]) :]
-        )
+        # Note that the number of labels in common may be zero (the closest
+        # encloser is the origin of a relativized zone), so we cannot slice
+        # with a negative index.
+        common = max(left_comparison[2], right_comparison[2])
+        closest_encloser = dns.name.Name(name[len(name) - common :])
         return Bounds(
             name,
             left.key(),
